@@ -40,8 +40,9 @@ func applyMutant(m Mutant) (map[string][]byte, error) {
 	return map[string][]byte{abs: []byte(strings.Replace(s, m.Old, m.New, 1))}, nil
 }
 
-// runMutant returns (reported, message).
-func runMutant(m Mutant, tier string) (bool, string) {
+// runMutant returns (reported, message). Obligations that already fail on the
+// unmutated tree (baseline: known findings) do not count as a report.
+func runMutant(m Mutant, tier string, baseline map[string]bool) (bool, string) {
 	ov, err := applyMutant(m)
 	if err != nil {
 		return false, err.Error()
@@ -57,7 +58,7 @@ func runMutant(m Mutant, tier string) (bool, string) {
 	}
 	var hits []string
 	for _, o := range c.failedObls() {
-		if strings.HasPrefix(o.Rule, m.Expect) {
+		if strings.HasPrefix(o.Rule, m.Expect) && !baseline[o.Rule+"|"+o.Key] {
 			hits = append(hits, o.Rule+" "+o.Key)
 		}
 	}
@@ -75,12 +76,16 @@ func runMutant(m Mutant, tier string) (bool, string) {
 }
 
 func runMutantsFor(c *Ctx) {
+	baseline := map[string]bool{}
+	for _, o := range c.failedObls() {
+		baseline[o.Rule+"|"+o.Key] = true
+	}
 	for _, m := range mutants {
 		if m.Prop != c.Prop {
 			continue
 		}
 		c.selftest["mutants"]++
-		ok, msg := runMutant(m, "quick")
+		ok, msg := runMutant(m, "quick", baseline)
 		if ok {
 			c.selftest["mutants_reported"]++
 			if !c.quiet {
@@ -95,7 +100,14 @@ func runMutantsFor(c *Ctx) {
 func runOneMutant(name string) int {
 	for _, m := range mutants {
 		if m.Name == name || m.Prop+"/"+m.Name == name {
-			ok, msg := runMutant(m, "quick")
+			base := newCtx(m.Prop, "quick", 0)
+			base.quiet = true
+			runProp(registry[m.Prop], base)
+			baseline := map[string]bool{}
+			for _, o := range base.failedObls() {
+				baseline[o.Rule+"|"+o.Key] = true
+			}
+			ok, msg := runMutant(m, "quick", baseline)
 			fmt.Printf("mutant %s/%s reported=%v: %s\n", m.Prop, m.Name, ok, msg)
 			if ok {
 				return 0
